@@ -35,7 +35,10 @@ def extract(ctx):
 TRUSTED = [
     "Lean 4.33 kernel; axioms propext, Classical.choice, Quot.sound only (audited by #print axioms)",
     "cryptographic hardness (Ed25519 unforgeability, ChaCha20-Poly1305 integrity, X25519/HKDF collision freedom) enters "
-    "only as the hypothesis records IdealSig / IdealAEAD / IdealDH / FreshKeys (satisfiable: instance Sym proves them)",
+    "only as the hypothesis records IdealSig / IdealAEAD / IdealDH / FreshKeys and their symbolic-strength forms StrongSig / "
+    "StrongAEAD (satisfiable: instance Sym proves them all); the attacker of C02_session_origin is restricted by the Dolev-Yao "
+    "rule for signatures as a condition on runs (Obeys) - proved as a derivation-closure theorem for terms "
+    "(C02_dy_signature_rule), assumed to carry over to byte strings (no term->bytes encoding is modelled)",
     "hand-written model lean/HapModel/PairVerify.lean of handle_pair_verify/_pair_verify_one/_pair_verify_two, State "
     "pairing maps and the cipher installation in _process_response, tied by this differential run (same request bytes; "
     "crypto/uuid answers supplied as tables by the reference controller)",
